@@ -111,6 +111,7 @@ func c17scenario(impl, name string, ops []c17op, clock []time.Duration, expire m
 					r.started, r.tStart = true, x.Now()
 					x.Obs("%s start@%s", op.name, x.Now())
 					v, err := d.db.Await(ctx, op.key.duty, op.key.pk, 0)
+					t.Point("ret") // woken readers park before touching the shared harness records
 					r.val, r.err, r.done, r.tDone = v, err, true, x.Now()
 					x.Obs("%s=%s@%s", op.name, c17show(v, err), x.Now())
 				})
